@@ -15,7 +15,7 @@ import vlib
 from vlib import enc_str as E, enc_list, dec_list
 from props.c04 import t_cond, t_prim, SAFE_VALUES, split_result
 
-THEOREMS = ["C05_tables"]
+THEOREMS = ["C05_tables", "C05_fn_end", "C05_sim_partial", "C05_F6_refuted_return", "C05_F6_refuted_recursion"]
 
 
 # ---- trees -> prefix notation ---------------------------------------------------------------------
@@ -349,6 +349,8 @@ def run(ck):
         for pos, (k, io_full) in enumerate(zip(idx, i_out)):
             kind, defs, main, init = cases[k]
             text, wf, kf6, spec, model = m_out[k].split("\t")
+            ordered = kf6.endswith("O")
+            kf6 = kf6[:1]
             io = split_result(io_full)[0] if io_full.startswith("OK") else io_full
             script_lines = dec_list(text)
             acc = {"for": 0, "call": 0, "return": 0}
@@ -393,7 +395,8 @@ def run(ck):
                     if f6["witness"] is None or len(script_lines) < len(f6["witness"]["script"]):
                         f6["witness"] = {"script": script_lines, "init": init, "spec": spec, "implementation": io}
             else:
-                cls = "in domain"
+                cls = "in domain, proved part (calls follow the definition order)" if ordered else \
+                      "in domain, correspondence only (call-graph cycle)"
                 nontriv.add((text, tuple(init)))
                 if spec != model:
                     bad = "extracted model and extracted spec (prog_run) disagree outside KnownF6"
@@ -409,9 +412,9 @@ def run(ck):
                 if len(ck.violations) < 5:
                     ck.violation({"kind": bad, "case_kind": kind, "script": script_lines, "initial_variables": init,
                                   "known_f6": kf6, "spec(prog_run)": spec, "model(flat machine)": model, "implementation": io_full,
-                                  "theorems": ["C05_sim"], "seed": ck.seed,
+                                  "theorems": ["C05_sim_partial"], "seed": ck.seed,
                                   "replay_cmd": "printf '%s\\n' | .cache/cargo-target/release/c05" % impl_lines[pos].replace("\t", "\\t")})
-            elif len(samples) < 3 and kind == "random" and cls == "in domain" and acc["call"] >= 3 and acc["return"] >= 2:
+            elif len(samples) < 3 and kind == "random" and cls and cls.startswith("in domain") and acc["call"] >= 3 and acc["return"] >= 2:
                 samples.append({"script": script_lines, "init": init})
 
     all_cases = cases
